@@ -3,6 +3,7 @@ from __future__ import annotations
 
 from dataclasses import replace
 
+from .domains import NoneV
 from .front import norm
 from .interp import Finding, Interp, Raise
 from .lookup import LookupMixin
@@ -22,6 +23,29 @@ class Engine(LookupMixin, Interp):
             self.functions_entered.add(fi.qualname)
             return self.do_lookup(summ, args, kwargs, st, node)
         return super().call_function(fi, args, kwargs, st, node, self_val=self_val)
+
+    def on_setfield(self, obj, name, old, new, st, node):
+        self.check_stale_cache(obj, name, new, st, node)
+
+    def check_stale_cache(self, obj, name, new, st, node):
+        """STALE-CACHE: a property getter of a long-lived MOS object (MosFile family) stores a value into the object.
+        Merges mutate / replace the XML afterwards, so the stored value goes stale."""
+        ent = st.get(obj.sym)
+        fam = getattr(self, '_mosfile_family', None)
+        if fam is None:
+            fam = self._mosfile_family = {c.qualname for c in self.prog.subclasses(self.prog.cls('MosFile'))}
+        if ent.cls not in fam:
+            return
+        for fr in reversed(st.frames):
+            f = fr.func
+            if f is not None and f.kind == 'property' and f.node.args.args and fr.env.get(f.node.args.args[0].arg) == obj:
+                if isinstance(new, NoneV) and new.origin is None:
+                    continue
+                fd = Finding('STALE-CACHE', f.short, f'self.{name} = ... inside the getter', 
+                             f'the getter {f.short} memoises a value derived from the document in self.{name}; later merges change the document '
+                             f'and the accessor keeps answering from the stale value', f.file, getattr(node, 'lineno', f.node.lineno), self.entry, self.witness(st))
+                self.findings.setdefault(fd.key, fd)
+                return
 
     def hook(self, kind, st, node, **data):
         if kind in ('lookup', 'remove', 'insert', 'append', 'setitem', 'warn', 'newchild', 'copy', 'elem-store',
